@@ -265,6 +265,16 @@ func TestVF_C06(t *testing.T) {
 		}
 		// v_prime + ord keeps the proven statement: it stays valid as long as it is in range
 		delete(m1devs, "proofU.v_prime+ord")
+		// part of the secret-key response moved onto a second response for the same base R_0: the
+		// reconstructed commitment is unchanged, the proof no longer binds s_response to U
+		m1devs["proofU.s_response-split-onto-m_user_responses[0]"] = edit1(func(m *IssueCommitmentMessage, p *ProofU) {
+			k := new(big.Int).Rsh(p.SResponse, 1)
+			p.SResponse.Sub(p.SResponse, k)
+			if p.MUserResponses == nil {
+				p.MUserResponses = map[int]*big.Int{}
+			}
+			p.MUserResponses[0] = k
+		})
 		for _, j := range c.blind {
 			j := j
 			m1devs[fmt.Sprintf("proofU.m_user_responses[%d]+1", j+1)] = edit1(func(m *IssueCommitmentMessage, p *ProofU) {
@@ -370,6 +380,33 @@ func TestVF_C06(t *testing.T) {
 		} else if w, err := newRevWorld(c.kp); err == nil {
 			if w2, err := w.newWitness(); err == nil {
 				m2devs["witness-added"] = edit2(func(m *IssueSignatureMessage) { m.NonRevocationWitness = w2 })
+			}
+		}
+		// the issuer signs another value for a known attribute and compensates with a KeyshareP
+		// element in the signature it sends (an ordinary field of the message)
+		if !c.keyshare {
+			for i, a := range run.inAttrs {
+				if a == nil || (c.witness && i == len(run.inAttrs)-1) {
+					continue
+				}
+				other := append([]*big.Int{}, run.inAttrs...)
+				other[i] = new(big.Int).Add(expOf(a, pk.Params.Lm), bi(1))
+				if expOf(other[i], pk.Params.Lm).Cmp(new(big.Int).Add(expOf(a, pk.Params.Lm), bi(1))) != 0 {
+					continue
+				}
+				var wit0 *revocation.Witness
+				if c.witness {
+					wit0 = m2.NonRevocationWitness
+				}
+				var d1 IssueCommitmentMessage
+				_ = json.Unmarshal(run.msg1, &d1)
+				sm, err := NewIssuer(c.kp.Sk, pk, c.ctx).IssueSignature(d1.U, other, wit0, d1.Nonce2, c.blind)
+				if err == nil {
+					sm.Signature.KeyshareP = new(big.Int).Set(pk.R[i+1]) // R(signed) = R(expected) * R_i
+					b, _ := json.Marshal(sm)
+					m2devs["signed-other-attribute+KeyshareP-compensation"] = b
+				}
+				break
 			}
 		}
 		for what, msg := range m2devs {
